@@ -256,6 +256,46 @@ pub fn sym(args: &[String]) {
             }
         }
     }
+    // ---- a linear homogeneous stiff system on DOPRI5 / DOP853 with the stiffness detector at every accepted step, (a) state and
+    // atol scaled by 2^k, tiny and huge, (b) stacked into m copies with a given first step: the detector's quotient is a ratio of
+    // sums of squares over the components and has to come out the same, so the run stops at the same step with the same status
+    {
+        let mut r3 = Rng(seed ^ 0x5CA1);
+        for k in 0..cases * 4 {
+            let method = if k % 2 == 0 { Method::DOP853 } else { Method::DOPRI5 };
+            let lam = 10f64.powf(r3.range(1.0, 3.0));
+            let rtol = 10f64.powf(r3.range(-9.0, -3.0));
+            let atol0 = rtol * 10f64.powf(r3.range(-3.0, 0.0));
+            // forward only: backward the solution grows until it overflows, which no scaling symmetry survives
+            let span = r3.range(200.0, 1500.0) * 3.3 / lam;
+            let y0 = [r3.range(0.5, 2.0), r3.range(-1.0, 1.0)];
+            let h0 = 0.5 / lam;
+            let mode = k % 4 / 2;   // 0: scaling, 1: copies
+            let (sc, m): (f64, usize) = if mode == 0 { (2f64.powi([-60, -40, -30, 25, 70, -100][r3.below(6)]), 1) } else { (1.0, 2 + r3.below(15)) };
+            let run = |sc: f64, m: usize| {
+                let p = LinStiff { lam, m };
+                let yy: Vec<f64> = (0..2 * m).map(|i| sc * y0[i % 2]).collect();
+                let mut rec = Recorder::new();
+                rec.thetas = vec![];
+                let r = catch_unwind(AssertUnwindSafe(|| match method {
+                    Method::DOPRI5 => DOPRI5::builder().stiff_test(1).first_step(h0).max_steps(20000).build().solve(&p, 0.0, &yy, span, rtol.into(), (sc * atol0).into(), Some(&mut rec)).map(|s| s.status),
+                    _ => DOP853::builder().stiff_test(1).first_step(h0).max_steps(20000).build().solve(&p, 0.0, &yy, span, rtol.into(), (sc * atol0).into(), Some(&mut rec)).map(|s| s.status),
+                }));
+                (format!("{:?}", r), rec.cbs)
+            };
+            let (s0, c0) = run(1.0, 1);
+            let (s1, c1) = run(sc, m);
+            let mut why = String::new();
+            let what = if mode == 0 { format!("scaled by {:e}", sc) } else { format!("{} copies", m) };
+            if s0 != s1 { why = format!("{}: run ends {}, original {} ({} vs {} step points)", what, s1, s0, c1.len(), c0.len()); }
+            // (copies: the step sequences may drift apart through rounding in the norm; status and the first steps are compared)
+            else if mode == 0 && c0.len() != c1.len() { why = format!("{}: {} step points, original {} (both end {})", what, c1.len(), c0.len(), s0); }
+            else if mode == 0 && c0.iter().zip(c1.iter()).any(|(u, v)| u.x != v.x || (0..2).any(|i| (sc * u.y[i]).to_bits() != v.y[i].to_bits())) { why = format!("{}: step points or scaled states differ", what); }
+            else if mode == 1 && c0.iter().zip(c1.iter()).take(4).any(|(u, v)| (u.x - v.x).abs() > 1e-9 * u.x.abs()) { why = format!("{}: the first steps differ beyond rounding", what); }
+            row("sy", 530000 + k, if mode == 0 { "scale-stiffness-detector" } else { "copies-stiffness-detector" }, Kind::Stiff, method, "c13-stiffness-symmetry", &why,
+                &format!("\"lam\":{:e},\"rtol\":{:e},\"atol\":{:e},\"span\":{:e},\"scale\":{:e},\"copies\":{},\"y0\":[{:e},{:e}],\"status\":{:?},", lam, rtol, atol0, span, sc, m, y0[0], y0[1], s0));
+        }
+    }
     // ---- stiff problems on DOPRI5 / DOP853 called directly with the stiffness detector looking at every accepted step
     // (`stiff_test(1)`) or every few: the detector's quotient decides where the run stops with ProbablyStiff, so it has to be
     // the same for the reflected problem.  The case count follows `cases` (40 per requested case).
@@ -1021,6 +1061,14 @@ impl IVP for Relax {
                 for r in 0..n { j[(r, c)] = (f1[r] - f0[r]) / h; }
             }
         }
+    }
+}
+
+/// `m` copies of the linear homogeneous stiff system u' = -lam u + v, v' = -0.2 u - 0.7 v
+struct LinStiff { lam: f64, m: usize }
+impl IVP for LinStiff {
+    fn ode(&self, _x: f64, y: &[f64], d: &mut [f64]) {
+        for j in 0..self.m { d[2 * j] = -self.lam * y[2 * j] + y[2 * j + 1]; d[2 * j + 1] = -0.2 * y[2 * j] - 0.7 * y[2 * j + 1]; }
     }
 }
 
